@@ -319,6 +319,9 @@ class SimplifySymbolNames:
     def __mutate_symbol(self, symbol, input_):
         """Return a list of mutations of input_ based on simpler versions of
         symbol."""
+        if symbol.is_leaf() and symbol.data[:1] in (';', '"'):
+            # a comment or string literal in the place of the symbol
+            return
         if is_piped_symbol(symbol):
             for s in self.__simpler(get_piped_symbol(symbol)):
                 if not is_declared_symbol(Node('|' + s + '|')):
